@@ -7,6 +7,7 @@ open Proto Livetime
       between <edges> <t0> <t1>      -> idx:<flat|ERR> spec:<flat>
       upto    <edges> <t>
       draw    <edges> <u>
+      drawwin <edges> <t0> <t1> <u>
       mask    <times> <t0> <t1>
       integ   <edges>
 -/
@@ -26,6 +27,13 @@ def answer (line : String) : String :=
       | none => "ERR"
   | ["draw", es, u] => match drawOn (pairs es) (pF u) with
       | some x => fF x
+      | none => "ERR"
+  | ["drawwin", es, t0, t1, u] =>
+      -- draw_ontimes(t_min, t_max): restrict with the index arithmetic, then inverse CDF
+      match betweenIdx (pairs es) (pF t0) (pF t1) with
+      | some r => (match drawOn r (pF u) with
+          | some x => fF x
+          | none => "ERR")
       | none => "ERR"
   | ["mask", ts, t0, t1] => fListD fB (subsetMask (pList pF ts) (pF t0) (pF t1))
   | ["integ", es] => fB (integrity (pList pF es))
